@@ -1,5 +1,6 @@
 import NunVerif.Model.Parse
 import NunVerif.Model.Pending
+import NunVerif.Model.Disk
 /-
   `process_request` = `Request::parse` → `process_request_obj` → `replicate_request`
   (process_request.rs, security.rs, db_ops.rs, consensus_ops.rs, election_ops.rs,
@@ -49,6 +50,7 @@ structure Node where
   toSnapshot : List (Bytes × Bool)
   keysMap : List (Bytes × Nat)
   oplogValid : Bool
+  fs : Fs := []
 deriving Repr, Inhabited
 
 inductive Resp
